@@ -13,10 +13,38 @@ CHECKS = {
         "technique": "symbolic constraint-table evaluation + domain containment + dominator/typestate rules on a statement CFG",
     },
 }
+CHECKS.update({
+    "C02": {
+        "text": "Structural necessary conditions of gradient correctness for all 6 GEMINI classes x 2 ovo modes: same score expression "
+                "with and without the gradient, gradient axes exactly [N,K] under a named-axis abstract interpretation (no axis-less "
+                "squeeze, no broadcasting between different axes), gradient masked by the clip mask of the raw predictions, return "
+                "arity, pairing of Wasserstein dual potentials with their marginals. The equality of the hand-derived blocks with the "
+                "derivative is NOT decided.",
+        "note": "trusted: numpy/POT shape semantics as encoded in gcverif/e3_numpy.py; reaching definitions on a hand-built statement CFG.",
+        "technique": "named-axis abstract interpretation + reaching definitions + canonical-form comparison + mirror comparison",
+    },
+    "C03": {
+        "text": "The structural core of 'updates follow the true gradient': provenance (no gradient built from another gradient), chain-rule "
+                "required reads derived from the forward pass, number/axes alignment of gradients and weights at every "
+                "optimiser.update_params call for every estimator and batch mode, no cross-sample reduction inside back-propagation, "
+                "loop protocol of both training loops, optimiser aliasing, formal sign. Jacobian formulas and scalar factors are NOT decided.",
+        "note": "trusted: numpy shape semantics table; sklearn optimisers update params[i] in place with grads[i]; Douglas cut-point gradients "
+                "are outside the shape domain and excluded from the shape and sign rules.",
+        "technique": "backward slicing on a CFG + forward-pass dependency extraction + named-axis abstract interpretation",
+    },
+    "C04": {
+        "text": "API resolution of every attribute/import/keyword/numpy name against the sources and stubs installed in /venv, abstract-method "
+                "exhaustiveness, coherence wiring of labels_/predict/predict_proba/score/n_iter_/optimiser by abstract interpretation of "
+                "fit followed by prediction on new data, accepted=>usable domain containment, and shape soundness of the whole fit/predict "
+                "path for every estimator, batch mode and GEMINI name. Termination and finite arithmetic are NOT decided.",
+        "note": "trusted: the installed sources/stubs describe the API that runs; numpy shape semantics table.",
+        "technique": "name resolution against installed package sources + named-axis abstract interpretation + constraint-domain containment",
+    },
+})
 NOT_APPLICABLE = {
     "C05": "exact-minimiser property over all real matrices: value-level, no structural clause that is both necessary and "
            "non-brittle beyond what C06 checks (DESIGN.md §7)",
 }
-for _p in ["C01","C02","C03","C04","C06","C07","C08","C09","C10","C11","C12","C13","C14","C15","C17","C18","C19","C20"]:
+for _p in ["C01","C06","C07","C08","C09","C10","C11","C12","C13","C14","C15","C17","C18","C19","C20"]:
     if _p not in CHECKS:
         NOT_APPLICABLE[_p] = PENDING
